@@ -29,6 +29,10 @@ MEMPOOL_HARNESSES = [
                      'removeAll forgets the payloads of the accepted block, they never reappear, and the next generatePopData is again valid for the next block; no freed memory is touched anywhere (engine obligation)'],
      'rungs': {'quick': [{'defines': ['NSUB=3'], 'bound': 'payload universe {VBK2, VBK3, VBK4, ATV A (in VBK3, endorses ALT 2), VTB V (in VBK4, endorses VBK2 in BTC 2)}; every sequence of 3 submissions (repeats allowed), then generatePopData, block, removeAll, generatePopData, block', 'timeout': 280}],
                'thorough': [{'defines': ['NSUB=5'], 'bound': 'every sequence of 5 submissions', 'timeout': 3000}, {'defines': ['NSUB=4'], 'bound': 'every sequence of 4 submissions', 'timeout': 900}]}},
+    {'name': 'h_mempool_limits', 'src': 'real/h_mempool.cpp', 'entry': 'h_mempool', 'repo_srcs': srcsets_real.REAL, 'defines': ['MODE_LIMITS'], 'covers': [1, 2, 3], 'jobs': 16, 'override': True,
+     'obligations': ['REAL MemPool::generatePopData under small configured limits (max VBK blocks / VTBs / ATVs per ALT block, PopData byte limit at and just below the sizes that matter): every generated PopData respects every limit, has no duplicate ids, leaves the trees untouched, and the next ALT block carrying exactly it activates; three rounds (generate, block, removeAll): nothing is offered twice; with generous limits everything is offered at once'],
+     'rungs': {'quick': [{'bound': 'pool {VBK2..5, ATV in VBK3, VTB in VBK4, ATV in VBK5}; max VBK 1..4, max VTB 0..1, max ATV 0..2, 5 byte limits (generous, exact size of everything, one less, context+first ATV, one less); 3 rounds', 'timeout': 280}],
+               'thorough': [{'bound': 'as quick', 'timeout': 900}]}},
     {'name': 'h_mempool_stale', 'src': 'real/h_mempool.cpp', 'entry': 'h_mempool', 'repo_srcs': srcsets_real.REAL, 'defines': ['MODE_STALE'], 'covers': [1], 'jobs': 2,
      'obligations': ['REAL MemPool::cleanUp on a pool holding 1..2 connected ATVs whose VBK block fell behind the old-blocks window: no freed memory is touched (engine use-after-free check), stale payloads are forgotten'],
      'rungs': {'quick': [{'bound': '1..2 connected ATVs on a VBK block 3 blocks behind the VBK tip, old-blocks window 1 (pool state constructed directly: what a successful submit<ATV> leaves)', 'timeout': 200}], 'thorough': [{'bound': 'as quick', 'timeout': 400}]}},
